@@ -48,7 +48,10 @@ def locate_impl(c):
     from cutadapt._align import Aligner
 
     _, ref, q, rate, flags, wref, wq, ic, ov = c
-    r = Aligner(ref, rate, flags, wref, wq, ic, ov).locate(q)
+    try:
+        r = Aligner(ref, rate, flags, wref, wq, ic, ov).locate(q)
+    except Exception as e:  # an exception is an answer too (compared with the model, which has none)
+        return "EXC %s" % type(e).__name__
     return "None" if r is None else " ".join(map(str, r))
 
 
@@ -93,6 +96,8 @@ def check(ctx):
     bad = core.diff_cases(ctx, "Aligner.locate", lc, impl, mod, None)
     for c, o in zip(lc, impl):
         ctx.count(c, o != "None")
+        if o.startswith("EXC"):
+            ctx.violation("Aligner raises " + o[4:], {"case": list(c), "why": "Aligner(...).locate raised " + o[4:]})
     dist["locate"] = len(lc)
     for i in bad[:10]:
         ctx.violation("correspondence:Aligner.locate", {"case": list(lc[i]), "impl": impl[i], "model": mod[i]}, found_input=False)
@@ -106,10 +111,18 @@ def check(ctx):
         try:
             ad_real = spec.build()
             ad_mock = spec.build(mock_prefilter=True)
-        except Exception:
+        except (ValueError, KeyError):
+            continue  # documented rejections (e.g. only N wildcards)
+        except Exception as e:
+            ctx.violation("%s adapter construction raises %s" % (spec.typ, type(e).__name__), {"adapter": spec.to_json(), "why": "%s: %s" % (type(e).__name__, e)})
             continue
         for r in reads:
-            mt = ad_mock.match_to(r)
+            try:
+                mt = ad_mock.match_to(r)
+                real_mt = ad_real.match_to(r)
+            except Exception as e:
+                ctx.violation("%s match_to raises %s" % (spec.typ, type(e).__name__), {"adapter": spec.to_json(), "read": r, "why": "match_to raised %s: %s" % (type(e).__name__, e)})
+                continue
             impl_out.append(U.match_tuple(mt))
             lines.append(U.model_line_matchto(ad_mock, spec, r))
             meta.append((spec, r))
@@ -117,7 +130,7 @@ def check(ctx):
             key = "%s/%s" % (spec.typ, "match" if mt is not None else "none")
             dist[key] = dist.get(key, 0) + 1
             # oracle: both the prefiltered (what the user gets) and the unfiltered answer must be genuine
-            for which, res in (("match_to", ad_real.match_to(r)), ("match_to[no prefilter]", mt)):
+            for which, res in (("match_to", real_mt), ("match_to[no prefilter]", mt)):
                 why = U.oracle_sound(spec, ad_mock, r, res)
                 if why:
                     n_viol += 1
